@@ -458,14 +458,20 @@ func (a *asset) generateTimelineEntries(repID string, wt wrapTimes, atoMS int) s
 	}
 
 	ato := uint64(atoMS * rep.MediaTimescale / 1000)
+	wrapDur := uint64(rep.duration())
 
-	relStartTime := uint64(wt.startRelMS * rep.MediaTimescale / 1000)
+	// The availabilityTimeOffset may move the instants into one of the following loops
+	relStartTime := uint64(wt.startRelMS*rep.MediaTimescale/1000) + ato
+	if relStartTime >= wrapDur {
+		wt.startWraps += int(relStartTime / wrapDur)
+		relStartTime %= wrapDur
+	}
 	relStartIdx := 0
-	if relStartTime+ato < segs[0].EndTime {
+	if relStartTime < segs[0].EndTime {
 		wt.startWraps--
 		relStartIdx = nrSegs - 1
 	} else {
-		relStartIdx = findFirstFinishedSegIdx(segs, relStartTime+ato)
+		relStartIdx = findFirstFinishedSegIdx(segs, relStartTime)
 		if relStartIdx < 0 {
 			wt.startWraps--
 			relStartIdx = nrSegs - 1
@@ -476,13 +482,17 @@ func (a *asset) generateTimelineEntries(repID string, wt wrapTimes, atoMS int) s
 		wt.startWraps = 0
 	}
 
-	relNowTime := uint64(wt.nowRelMS * rep.MediaTimescale / 1000)
+	relNowTime := uint64(wt.nowRelMS*rep.MediaTimescale/1000) + ato
+	if relNowTime >= wrapDur {
+		wt.nowWraps += int(relNowTime / wrapDur)
+		relNowTime %= wrapDur
+	}
 	relNowIdx := 0
-	if relNowTime+ato < segs[0].EndTime {
+	if relNowTime < segs[0].EndTime {
 		wt.nowWraps--
 		relNowIdx = nrSegs - 1
 	} else {
-		relNowIdx = findFirstFinishedSegIdx(segs, relNowTime+ato)
+		relNowIdx = findFirstFinishedSegIdx(segs, relNowTime)
 		if relNowIdx < 0 {
 			wt.nowWraps--
 			relNowIdx = nrSegs - 1
